@@ -8,6 +8,7 @@ import tempfile
 from ..boot import HarnessError
 
 _LOOP = None
+_VOFFSET = [0.0]
 _SLOT = None
 _SLOT_FH = None
 SLOT_DIR = os.path.join(tempfile.gettempdir(), "aiosw-verif-slots")
@@ -20,7 +21,42 @@ def loop():
     if _LOOP is None or _LOOP.is_closed():
         _LOOP = asyncio.new_event_loop()
         asyncio.set_event_loop(_LOOP)
+        _own_clock(_LOOP)
     return _LOOP
+
+
+def _own_clock(lp):
+    """The loop's clock is real monotonic time plus an offset that only virtual_time ever advances; installed when the
+    loop is made, so that no timer is ever computed against the un-shifted clock."""
+    import time as _time
+    real = _time.monotonic
+    lp.time = lambda: real() + _VOFFSET[0]
+    lp._verif_vclock = True
+
+
+def new_loop():
+    """Close this process's event loop and make a fresh one (a program that calls asyncio.run() twice and keeps its
+    objects).  Whatever the harness still had running on the old loop is cancelled first."""
+    global _LOOP
+    lp = _LOOP
+    if lp is not None and not lp.is_closed():
+        try:
+            pending = [t for t in asyncio.all_tasks(lp) if not t.done()]
+            for t in pending:
+                t.cancel()
+            if pending:
+                lp.run_until_complete(asyncio.gather(*pending, return_exceptions=True))
+            lp.run_until_complete(lp.shutdown_asyncgens())
+        finally:
+            lp.close()
+    _LOOP = None
+    return loop()
+
+
+async def idle(secs):
+    """Nothing happens for `secs` seconds of event-loop time (costs milliseconds, see virtual_time)."""
+    with virtual_time():
+        await asyncio.sleep(secs)
 
 
 def run(coro, timeout=None):
@@ -66,9 +102,6 @@ def udp_ports(n=4):
     return [base + i for i in range(n)]
 
 
-_VOFFSET = [0.0]
-
-
 class virtual_time:
     """While active, the event loop's clock is the harness's: whenever the loop would block waiting for a timer and no
     socket is ready, the clock jumps to that timer instead (after a 2 ms real grace for the kernel).  A device that
@@ -81,12 +114,9 @@ class virtual_time:
         self.jumped = 0.0
 
     def __enter__(self):
-        import time as _time
         lp, sel = self.lp, self.lp._selector
         if not getattr(lp, "_verif_vclock", False):
-            real = _time.monotonic
-            lp.time = lambda: real() + _VOFFSET[0]       # the offset only ever grows: the loop clock stays monotonic
-            lp._verif_vclock = True
+            raise HarnessError("virtual_time needs a loop made by net.loop()")
         self._orig_select = sel.select
 
         def select(timeout=None):
